@@ -1652,12 +1652,16 @@ the receiver, nothing happens.
 func (r *stack) lock() {
 	if r.canMutex() {
 		if mutex, found := r.mutex(); found {
-			sc, _ := r.config()
-			_now := now()
-			sc.ldr = &_now
 			verifPoint("lock.want", r)
 			mutex.Lock()
 			verifPoint("lock.held", r)
+
+			// the lock timestamp is bookkeeping of the
+			// critical section: write it while locked.
+			if sc, err := r.config(); err == nil {
+				_now := now()
+				sc.ldr = &_now
+			}
 		}
 	}
 }
@@ -1670,10 +1674,11 @@ the receiver, nothing happens.
 func (r *stack) unlock() {
 	if r.canMutex() {
 		if mutex, found := r.mutex(); found {
+			if sc, err := r.config(); err == nil {
+				sc.ldr = nil
+			}
 			mutex.Unlock()
 			verifPoint("lock.released", r)
-			sc, _ := r.config()
-			sc.ldr = nil
 		}
 	}
 }
